@@ -8,11 +8,11 @@ use pkgsrc::plist::Plist;
 use serde_json::{json, Value};
 use std::os::unix::ffi::OsStrExt;
 
-const S1: [&[u8]; 30] = [
+const S1: [&[u8]; 33] = [
     b"f1", b"f2", b"+M", b"@ignore", b"@cwd /a", b"@cwd /b/", b"@cwd \xe9", b"@cwd /c\xe9/", b"@cwd rel", b"@exec e %D", b"@unexec u", b"@mode",
     b"@mode 0644", b"@owner o", b"@group g", b"@pkgdir d1", b"@dirrm d2", b"@comment c", b"@name n-1", b"@display msg",
     b"@pkgdep p>=1", b"@blddep b-[0-9]*", b"@pkgcfl x-*", b"@option preserve", b"@name n-2", b"@display other",
-    b"@owner", b"@group", b"@comment", b"/abs/f",
+    b"@owner", b"@group", b"@comment", b"/abs/f", b"@cwd /d//", b"@cwd //", b"@cwd /",
 ];
 const S2: [&[u8]; 7] = [b"f1", b"f2", b"@ignore", b"@cwd /a", b"@cwd /b/", b"@exec e", b"@comment c"];
 
@@ -127,7 +127,7 @@ fn main() {
         run.finish_replay(replay(doc), replay(doc));
     }
     run.rule(
-        "packing lists generated from entry-kind alphabets and parsed by the real parser: S1 = 30 \
+        "packing lists generated from entry-kind alphabets and parsed by the real parser: S1 = 33 \
          kinds (files, @ignore, three @cwd shapes incl. trailing '/' and non-UTF-8, every other \
          command kind, two @name and two @display), all sequences of <= N1; S2 = 7 kinds (f1 f2 \
          @ignore @cwd /a @cwd /b/ @exec @comment), all sequences of <= N2 (long ignore/file/cwd \
@@ -138,7 +138,7 @@ fn main() {
     run.assume("reference fold: mc/core/src/model/plist.rs views(); install/uninstall lists compared by value with the expected sub-sequence of the entry sequence");
 
     let n1 = run.pick(4, 5);
-    run.bound(format!("S1: all {} sequences of <= {} entries over 30 kinds", seqs::count(S1.len(), n1), n1));
+    run.bound(format!("S1: all {} sequences of <= {} entries over 33 kinds", seqs::count(S1.len(), n1), n1));
     seqs::par_seqs(&run, "C15 S1", S1.len(), n1, 2, |_| false, |s, t| {
         let mut text = vec![];
         for i in s {
